@@ -164,3 +164,161 @@ fn async_rx_window_timing() {
         kani::cover!(r.is_ok() && T_LOG.v.1 == 2 && lead > 0 && d == 5000, "send completed with both windows opened");
     }
 }
+
+// ---- C11 / C10 / C04-H7: the async front-end's join procedure -------------------------------------
+static mut J_STATE: Uq<u8> = Uq { magic: 0x6C7276007A110011, v: 0 }; // ghost MAC state: 0 unjoined, 1 joining (Otaa), 2 joined
+static mut J_NOUPDATE: Uq<u32> = Uq { magic: 0x6C7276007A110012, v: 0 };
+
+struct JRadio {
+    lead: u32,
+    calls: usize,
+    fail_at: usize,
+    tx_calls: usize,
+}
+impl JRadio {
+    fn step(&mut self) -> Result<(), ()> {
+        let k = self.calls;
+        self.calls += 1;
+        if k == self.fail_at { Err(()) } else { Ok(()) }
+    }
+}
+impl radio::PhyRxTx for JRadio {
+    type PhyError = ();
+    const MAX_RADIO_POWER: u8 = 20;
+    async fn tx(&mut self, _config: radio::TxConfig, _buf: &[u8]) -> Result<u32, ()> {
+        self.tx_calls += 1;
+        self.step()?;
+        Ok(unsafe { W_EXP.v.3 })
+    }
+    async fn setup_rx(&mut self, config: radio::RxConfig) -> Result<(), ()> {
+        unsafe {
+            let n = W_LOG.v.1;
+            if n < 4 {
+                W_LOG.v.0[n] = config.rf.frequency;
+            }
+            W_LOG.v.1 = n + 1;
+        }
+        self.step()
+    }
+    async fn rx_continuous(&mut self, _rx_buf: &mut [u8]) -> Result<(usize, radio::RxQuality), ()> {
+        Err(())
+    }
+    async fn rx_single(&mut self, _buf: &mut [u8]) -> Result<radio::RxStatus, ()> {
+        self.step()?;
+        if kani::any() {
+            let n: usize = kani::any();
+            kani::assume(n <= 255);
+            Ok(radio::RxStatus::Rx(n, radio::RxQuality::new(kani::any(), kani::any())))
+        } else {
+            Ok(radio::RxStatus::RxTimeout)
+        }
+    }
+    async fn low_power(&mut self) -> Result<(), ()> {
+        self.step()
+    }
+}
+impl Timings for JRadio {
+    fn get_rx_window_lead_time_ms(&self) -> u32 {
+        self.lead
+    }
+}
+/// contract of Mac::join_otaa (decided by join_request_exact / tx_join_legal_*): the device is
+/// joining from now on; the windows are bound to the request
+pub(crate) fn stub_join_otaa<RNG: RngCore, const N: usize>(
+    _m: &mut Mac,
+    _rng: &mut RNG,
+    _c: NetworkCredentials,
+    _buf: &mut RadioBuffer<N>,
+) -> (radio::TxConfig, mac::RxWindows, u16) {
+    let (mut w1, mut w2) = (any_rf(), any_rf());
+    unsafe {
+        J_STATE.v = 1;
+        w1.frequency = W_EXP.v.0;
+        w2.frequency = W_EXP.v.1;
+    }
+    (radio::TxConfig { pw: kani::any(), rf: any_rf() }, mac::RxWindows { rx1: w1, rx2: w2 }, kani::any())
+}
+/// contract of Mac::handle_rx while joining (decided by join_accept_*): a valid JoinAccept joins
+/// the device, any other frame changes nothing
+pub(crate) fn stub_handle_rx_join<const N: usize, const D: usize>(
+    _m: &mut Mac,
+    _buf: &mut RadioBuffer<N>,
+    _dl: &mut Vec<Downlink, D>,
+    _snr: i8,
+    _rf: &RfConfig,
+) -> mac::Response {
+    unsafe {
+        if J_STATE.v == 1 && kani::any() {
+            J_STATE.v = 2;
+            mac::Response::JoinSuccess
+        } else {
+            J_NOUPDATE.v += 1;
+            mac::Response::NoUpdate
+        }
+    }
+}
+/// contract of Mac::rx2_complete while joining (Otaa::rx2_complete)
+pub(crate) fn stub_rx2_complete_join(_m: &mut Mac) -> mac::Response {
+    mac::Response::NoJoinAccept
+}
+pub(crate) fn any_join_mode() -> JoinMode {
+    JoinMode::OTAA {
+        deveui: crate::DevEui::from(kani::any::<[u8; 8]>()),
+        appeui: crate::AppEui::from(kani::any::<[u8; 8]>()),
+        appkey: crate::AppKey::from(kani::any::<[u8; 16]>()),
+    }
+}
+
+//@h id=async_join props=C11,C10,C04,C07 tier=quick build=dev-eu868-noc cost=150 timeout=1800
+//@bounds one Device::join(OTAA) with arbitrary credentials, any TX timestamp < 2^31 ms, any board lead time <= 1000 ms, each window timing out or receiving a frame that is a valid JoinAccept or not, a radio fault at an arbitrary call or none: joined iff the MAC saw a valid JoinAccept, 'no join accept' iff both windows closed without one, a frame that is not a JoinAccept never ends the attempt; RX1 at 5 s and RX2 at 6 s after the end of the transmission less the lead time (the real Mac::get_rx_delay), on the windows bound to the request
+//@encodes async_device::Device::{join, rx_downlink, rx_listen, between_windows, window_complete, handle_mac_response}, Mac::get_rx_delay, From<mac::Response> for JoinResponse
+//@assumes Mac::{join_otaa, handle_rx, rx2_complete} replaced by contract stubs (facts decided by join_request_exact, join_accept_*); built without class-c (Class C: async_join_class_c)
+#[kani::proof]
+#[kani::stub(Mac::join_otaa, stub_join_otaa)]
+#[kani::stub(Mac::handle_rx, stub_handle_rx_join)]
+#[kani::stub(Mac::rx2_complete, stub_rx2_complete_join)]
+#[kani::unwind(6)]
+fn async_join() {
+    crate::mac::verif_kani_lorawan_device_mac_common::vinit();
+    let (f1, f2, ms): (u32, u32, u32) = (kani::any(), kani::any(), kani::any());
+    kani::assume(ms < 0x7FFF_0000 && f1 != f2);
+    let lead: u32 = kani::any();
+    kani::assume(lead <= 1000);
+    unsafe {
+        J_STATE.v = 0;
+        J_NOUPDATE.v = 0;
+        W_EXP.v = (f1, f2, 0, ms);
+        T_LOG.v = ([0; 4], 0);
+        W_LOG.v = ([0; 4], 0);
+    }
+    let radio = JRadio { lead, calls: 0, fail_at: kani::any(), tx_calls: 0 };
+    let mut dev: Device<JRadio, TTimer, NoRng, 256, 1> =
+        Device::new(region::Configuration::new(region::Region::EU868), radio, TTimer, NoRng);
+    let mode = any_join_mode();
+    let r = block_on(dev.join(&mode));
+    let faulted = dev.radio.fail_at < dev.radio.calls;
+    unsafe {
+        crate::vcheck!(dev.radio.tx_calls == 1, "C11: a join attempt transmits one JoinRequest");
+        match &r {
+            Ok(JoinResponse::JoinSuccess) => crate::vcheck!(J_STATE.v == 2, "C11: joined only upon a valid JoinAccept"),
+            Ok(JoinResponse::NoJoinAccept) => {
+                crate::vcheck!(J_STATE.v == 1, "C11: without a valid JoinAccept the device remains unjoined");
+                crate::vcheck!(T_LOG.v.1 == 2 && W_LOG.v.1 == 2, "C11: 'no join accept' only after both windows were opened");
+            }
+            Err(_) => crate::vcheck!(faulted, "C07: only a radio error ends a join attempt with an error: a frame that is not a JoinAccept has no effect"),
+        }
+        if J_STATE.v == 2 {
+            crate::vcheck!(faulted || matches!(r, Ok(JoinResponse::JoinSuccess)), "C11: a valid JoinAccept is reported as join success");
+        }
+        if T_LOG.v.1 >= 1 {
+            crate::vcheck!(T_LOG.v.0[0] == 5000 + (ms as u64) - (lead as u64), "C10: the join RX1 window opens 5 s after the end of the transmission, less the board's lead time");
+            crate::vcheck!(W_LOG.v.1 == 0 || W_LOG.v.0[0] == f1, "C10: RX1 uses the parameters bound to the JoinRequest");
+        }
+        if T_LOG.v.1 >= 2 {
+            crate::vcheck!(T_LOG.v.0[1] == 6000 + (ms as u64) - (lead as u64), "C10: the join RX2 window opens 6 s after the end of the transmission, less the board's lead time");
+            crate::vcheck!(W_LOG.v.1 < 2 || W_LOG.v.0[1] == f2, "C10: RX2 uses the parameters bound to the JoinRequest");
+        }
+        kani::cover!(matches!(r, Ok(JoinResponse::JoinSuccess)) && T_LOG.v.1 == 2 && J_NOUPDATE.v == 1, "foreign frame in RX1, JoinAccept in RX2");
+        kani::cover!(matches!(r, Ok(JoinResponse::NoJoinAccept)), "no join accept");
+    }
+}
